@@ -15,6 +15,8 @@ Other *makeOther() { return new Other(); }
 int *newints(int n) { int *p = (int *)std::malloc(sizeof(int) * (n > 0 ? n : 1)); for (int i = 0; i < n; ++i) p[i] = 40 + i; ++counters.ints_live; ++counters.ints_made; return p; }
 int *libints(int n) { (void)n; return libarr; }
 const std::string name(const Obj &o) { if (o.get() == 103) return std::string(); if (o.get() == 102) return std::string("exactly-fifteen"); return std::string("obj") + std::to_string(o.get()); }  // "" and the longest small string included
+std::string *newstr(int v) { return new std::string(v % 2 ? "a-string-longer-than-the-small-buffer" : "short"); }
+double *newdbls(int n) { double *p = (double *)std::malloc(sizeof(double) * (n > 0 ? n : 1)); for (int i = 0; i < n; ++i) p[i] = 0.5 * i; return p; }
 char *dupname(int v) { static const int lens[5] = {0, 1, 15, 16, 40}; int n = lens[(v < 0 ? -v : v) % 5]; char *p = (char *)std::malloc((size_t)n + 1); std::memset(p, 'd', n); p[n] = 0; return p; }
 // a pool of objects owned by the library; acquire hands one out, release_obj takes it back
 static Obj *slots[64];
